@@ -442,6 +442,9 @@ func runC15(c *Ctx, r *Report) {
 	c15Signals(c, r)
 	c15Poller(c, r)
 	c15TimeFlush(c, r)
+	borrow(c, r, func(c *Ctx, r *Report) { c01BatcherLoops(c, r, "C01-b") }, "C01-b", "C15-c", func(o Ob) bool { return strings.Contains(o.Key, "WithTimeFlush") }, false)
+	r.Floor("C15-c/fresh-batch", 3, "make / append / re-make in the time-flush loop")
+	r.Floor("C15-c/append-once", 2, "iteration paths of the time-flush loop")
 }
 
 func c15Signals(c *Ctx, r *Report) {
